@@ -3,7 +3,7 @@
 # given the property is read from the first line of meta<i>.txt ("PROPERTY: Cxx")
 D=$1; I=$2; shift 2
 DEMO=$(ls $D/demo${I}_test.go 2>/dev/null)
-PKG=$(grep -m1 -oE 'pkg/go/[a-z]+' $DEMO)
+PKG=$(grep -m1 -oE "pkg/go/[a-z]+" $DEMO | head -1)
 RUN=$(grep -o 'func Test[A-Za-z0-9_]*' $DEMO | sed 's/func //' | tr '\n' '|' | sed 's/|$//')
 [ $# -eq 0 ] && set -- $(head -1 $D/meta$I.txt | grep -oE 'C[0-9][0-9]')
 echo "##### $D mutant $I (pkg $PKG, tests $RUN, checks $*)"
